@@ -29,7 +29,9 @@ DEVS = {
 # the former).  Not a C04/C06 matter: the model follows the code, the check reports it as an observation.
 ALWAYS = {"Code_AfterDestroyOverwrites": True}
 # classes of change the model decides; not in the tree (TLC finds PostOnReturn resp. ForeignUntouched violated when TRUE)
-CLASSES = {"Code_ReleaseSkipsBlanked": False, "Code_MasterUpdateBlanksIds": False, "Code_FailedClaimerUnlocks": False}
+CLASSES = {"Code_ReleaseSkipsBlanked": False, "Code_MasterUpdateBlanksIds": False, "Code_FailedClaimerUnlocks": False,
+           "Code_KillPrunesInactive": False, "Code_RosterSwapLosesAppend": False, "Code_KillErrorForgotten": False,
+           "Code_FailedHookForgetsPending": False}
 MASTER_KINDS = {"MASTER_NOEXEC": "noexec", "MASTER_NOIDS": "noids"}
 
 HOOKDEF = {"h1": ("task", "DESTROY", 0), "h2": ("task", "DESTROY", 1), "h3": ("task", "after_DESTROY", 0),
@@ -89,7 +91,7 @@ def consts_text(c):
     return "\n".join("  %s = %s" % (k, tla(v)) for k, v in sorted(c.items()))
 
 
-MODEL_INVS = "TypeOK OneOwner DetExclusive ForeignUntouched ConflictFailsCleanly NoCrash PostOnReturn DestroyHooksLast"
+MODEL_INVS = "TypeOK OneOwner DetExclusive ForeignUntouched OwnedStayInRoster ConflictFailsCleanly NoCrash PostOnReturn DestroyHooksLast"
 
 
 def cfg_model(ctx, c, code):
@@ -219,6 +221,7 @@ def fail_role(basic):
 
 GATE_POINT = {"envman.create.snapshot": ("envman.create.snapshot", None), "envman.create.registered": ("envman.create.registered", "env"),
               "task.lock": ("task.lock", "env"), "task.kill.send": ("task.kill.send", None),
+              "task.roster.appended": ("task.roster.appended", None),
               "env.lock.acquired": ("env.lock.acquired", "what")}
 OPMAP = {"START_ACTIVITY": "START_ACTIVITY", "STOP_ACTIVITY": "STOP_ACTIVITY", "RESET": "RESET", "GO_ERROR": "GO_ERROR",
          "CONFIGURE": "CONFIGURE"}
@@ -231,6 +234,7 @@ class Builder:
         self.files, self.scripts, self.steps = {}, [], []
         self.envs = {}       # alias -> create record
         self.classes = {}    # class -> role
+        self.probes = {}     # behaviour of verif.Probe('<id>') call hooks
         self.isolated = False
 
     def cls(self, env, role):
@@ -244,8 +248,9 @@ class Builder:
         fr = fail_role(rec["basic"])
         s = rec["script"]
         # undeployable / partial: the UNDEPLOYABLE notification of the workflow is sent without blocking and can be lost
-        # while DeployTransition.do is busy; DEPLOY then fails at deploy_timeout only (90 s by default)
-        roles, defaults = "", ({"deploy_timeout": "6s"} if s in ("undeployable", "partial") else None)
+        # while DeployTransition.do is busy; DEPLOY then fails at deploy_timeout only (90 s by default).  launchfail: the
+        # same holds for the ERROR of the role whose task failed to launch (seen on a loaded machine).
+        roles, defaults = "", ({"deploy_timeout": "6s"} if s in ("undeployable", "partial", "launchfail") else None)
         for r in rec["basic"]:
             c = self.cls(e, r)
             cpu = 1000 if (s == "partial" and r == fr) else 0.1
@@ -272,6 +277,11 @@ class Builder:
                 roles += cs.role_call(h, h, trig(t, w), critical=False)
         if rec["pend"]:
             roles += cs.role_call("p1", "p1", "before_START_ACTIVITY", await_="after_STOP_ACTIVITY", critical=False)
+        if s == "hookfail":
+            # a call started at before_CONFIGURE and awaited at before_CONFIGURE+10; a critical call in between fails
+            roles += cs.role_call("late", "late%s" % e, "before_CONFIGURE", await_="before_CONFIGURE+10", critical=False)
+            roles += cs.role_call("crit", "crit%s" % e, "before_CONFIGURE+5", critical=True)
+            self.probes["crit%s" % e] = {"outcome": "fail"}
         if s == "load":
             roles += cs.role_task("zz", "%smissing" % self.pre, host="h1")
         if not roles:
@@ -348,7 +358,7 @@ class Builder:
                  "envs": {e: {"basic": r["basic"], "hooks": r["hooks"], "pend": r["pend"], "dets": r["dets"], "script": r["script"]}
                           for e, r in self.envs.items()}}
         s = {"id": self.sid, "family": self.family, "agents": cs.DEFAULT_AGENTS, "files": self.files,
-             "core": {"flags": ["--reuseUnlockedTasks=true"]} if self.reuse else {}, "scripts": self.scripts, "hooks": {},
+             "core": {"flags": ["--reuseUnlockedTasks=true"]} if self.reuse else {}, "scripts": self.scripts, "hooks": self.probes,
              "steps": self.steps, "model": model, "classes": self.classes, "hist": self.hist}
         if self.isolated:
             s["isolated"] = True
@@ -375,13 +385,17 @@ def recipe_double_claim(sid, prefix="c", then_destroy=False):
              {"do": "create", "env": "e1", "wf": pre + "w1", "vars": nod, "timeout_ms": 12000},
              {"do": "gate", "point": reg},
              {"do": "create", "env": "e2", "wf": pre + "w2", "vars": nod, "caller": "A", "timeout_ms": 20000},
-             {"do": "waitgate", "point": reg, "n": 1, "timeout_ms": 4000},
+             {"do": "waitgate", "point": reg, "n": 1, "timeout_ms": 8000},
              {"do": "create", "env": "e3", "wf": pre + ("w3" if then_destroy else "w2"), "vars": nod, "caller": "B", "timeout_ms": 20000},
-             {"do": "waitgate", "point": reg, "n": 2, "timeout_ms": 4000}, {"do": "disarm", "point": reg},
+             {"do": "waitgate", "point": reg, "n": 2, "timeout_ms": 8000}, {"do": "disarm", "point": reg},
              {"do": "destroy", "env": "e1", "keep_tasks": True, "timeout_ms": 12000},
              {"do": "gate", "point": lock, "match": {"env": "e2"}}, {"do": "release", "point": reg},
-             {"do": "waitgate", "point": lock, "timeout_ms": 4000}, {"do": "disarm", "point": lock},
-             {"do": "release", "point": reg}, {"do": "settle", "ms": 150}, {"do": "release", "point": lock},
+             {"do": "waitgate", "point": lock, "timeout_ms": 8000}, {"do": "disarm", "point": lock},
+             # e3 claims the task too and waits for the deployment mutex e2 holds; it is parked in turn before its first lock, so
+             # that e2 locks the reused task first and e3 last, whatever the load of the machine
+             {"do": "gate", "point": lock, "match": {"env": "e3"}}, {"do": "release", "point": reg}, {"do": "settle", "ms": 150},
+             {"do": "release", "point": lock}, {"do": "waitgate", "point": lock, "timeout_ms": 8000}, {"do": "settle", "ms": 150},
+             {"do": "disarm", "point": lock}, {"do": "release", "point": lock},
              {"do": "await", "caller": "A", "timeout_ms": 20000}]
     if then_destroy:
         # e2's failure tail could not release the task e3 took over: e2 is still listed, and as long as e3 holds the task
@@ -435,6 +449,61 @@ def recipe_failed_claimer(sid, prefix="c"):
             "model": {"reuse": True, "strict": False, "family": "recipe", "kill": "ack",
                       "envs": {"e1": mk(["a"]), "e2": mk(["a", "b"], "undeployable"), "e3": mk(["a"])}},
             "classes": classes, "hist": [{"do": "recipe", "name": "reuse-failed-claimer"}]}
+
+
+def recipe_kill_refused(sid, prefix="d"):
+    """The KILL call of the first task of a destroy's batch is rejected by the master; the killer is held before its second
+    KILL until the scheduler has subscribed again (a failed call costs it its connection), so that the later KILLs succeed.
+    The destroy cannot be honoured: it must return an error."""
+    pre = "%s%d" % (prefix, sid)
+    b = Builder(sid, "recipe:kill-refused", [{"do": "create", "env": "e1", "basic": ["a", "b"], "hooks": [], "pend": False,
+                                              "dets": ["TPC"], "script": "ok"}], prefix=prefix)   # (no hook task: those exit on their own)
+    s = b.build()
+    p = "task.kill.send"
+    cut = [i for i, x in enumerate(s["steps"]) if x.get("do") == "pendingcalls"][0]
+    s["steps"][cut:cut] = [
+        {"do": "refusekills", "n": 1}, {"do": "gate", "point": p},
+        {"do": "destroy", "env": "e1", "caller": "A", "timeout_ms": 40000},
+        {"do": "waitgate", "point": p, "timeout_ms": 8000}, {"do": "release", "point": p},
+        {"do": "waitgate", "point": p, "timeout_ms": 8000}, {"do": "disarm", "point": p},
+        {"do": "waitsubscribe", "n": 2, "timeout_ms": 30000}, {"do": "release", "point": p},
+        {"do": "await", "caller": "A", "timeout_ms": 40000}, {"do": "refusekills", "n": 0}, {"do": "settle", "ms": 60}, {"do": "snapshot"}]
+    s["isolated"] = True      # the count of subscriptions is per core process
+    s["model"]["strict"] = True
+    s["hist"] = [{"do": "recipe", "name": "kill-refused"}]
+    return s
+
+
+def recipe_lost_append(sid, prefix="c"):
+    """A cleanup's roster filter against the roster write at the end of a deployment: the cleanup is parked at
+    task.roster.filtered (reached whenever a filtered copy of the roster has been taken and the lock is free again: inside
+    the removal itself only if the removal is not one critical section), the deployment of e2 - parked just before its
+    roster write - appends, then the cleanup goes on.  Without that hook point in the tree the gates simply time out."""
+    pre = "%s%d" % (prefix, sid)
+    c = pre + "a"
+    files = {"tasks/%s.yaml" % c: cs.task_class(c),
+             "workflows/%sw.yaml" % pre: cs.workflow(pre + "w", cs.role_task("a", c, host="h1"), defaults={"deploy_timeout": "4s"})}
+    nod = {"detectors": "[]"}
+    reg, lock, fil, app = "envman.create.registered", "task.lock", "task.roster.filtered", "task.roster.appended"
+    steps = [{"do": "mutepoint", "point": "envman.released.delivered"}, {"do": "mutepoint", "point": fil},
+             {"do": "create", "env": "e1", "wf": pre + "w", "vars": nod, "timeout_ms": 30000},
+             {"do": "gate", "point": reg}, {"do": "create", "env": "e2", "wf": pre + "w", "vars": nod, "caller": "A", "timeout_ms": 40000},
+             {"do": "waitgate", "point": reg, "timeout_ms": 8000}, {"do": "disarm", "point": reg},
+             {"do": "destroy", "env": "e1", "force": True, "keep_tasks": True, "timeout_ms": 30000},
+             {"do": "gate", "point": lock, "match": {"env": "e2"}}, {"do": "release", "point": reg},
+             {"do": "waitgate", "point": lock, "timeout_ms": 8000}, {"do": "disarm", "point": lock},
+             {"do": "gate", "point": fil}, {"do": "cleanup", "caller": "B", "timeout_ms": 30000},
+             {"do": "waitgate", "point": fil, "timeout_ms": 1500}, {"do": "release", "point": fil},
+             {"do": "waitgate", "point": fil, "timeout_ms": 1500},
+             {"do": "gate", "point": app}, {"do": "release", "point": lock}, {"do": "waitgate", "point": app, "timeout_ms": 8000},
+             {"do": "disarm", "point": fil}, {"do": "release", "point": fil},
+             {"do": "await", "caller": "B", "timeout_ms": 30000}, {"do": "disarm", "point": app}, {"do": "release", "point": app},
+             {"do": "settle", "ms": 60}, {"do": "snapshot"}, {"do": "await", "caller": "A", "timeout_ms": 40000},
+             {"do": "settle", "ms": 60}, {"do": "snapshot"}]
+    mk = {"basic": ["a"], "hooks": [], "pend": False, "dets": [], "script": "ok"}
+    return {"id": sid, "family": "recipe:lost-append", "agents": cs.DEFAULT_AGENTS, "files": files, "core": {}, "scripts": [],
+            "hooks": {}, "steps": steps, "isolated": True, "classes": {c: "a"}, "hist": [{"do": "recipe", "name": "lost-append"}],
+            "model": {"reuse": False, "strict": False, "family": "recipe", "kill": "ack", "envs": {"e1": mk, "e2": mk}}}
 
 
 def run_expect_crash(ctx, s):
@@ -589,6 +658,11 @@ class Projector:
             grp = sorted(k for k, (a, x) in self.where.items() if a == ag and (ln["kind"] == "AGENT_LOST" or x == ex))
             self.facts[scn]["lost"] |= set(grp)
             return {"ev": "Fault", "scn": scn, "kind": ln["kind"], "task": self.tk(ln["task"]), "tasks": grp}
+        if ev == "MKillRefused":
+            if ln.get("task") not in self.alias:
+                return None
+            self.facts[scn].setdefault("refused", set()).add(self.tk(ln["task"]))
+            return {"ev": "MKillRefused", "scn": scn, "task": self.tk(ln["task"])}
         if ev == "MasterUpdate":
             if not ln.get("ok") or ln.get("task") not in self.alias:
                 return None
@@ -615,11 +689,22 @@ def run_and_validate(ctx, scenarios, own_invs, label):
         sel = []
         for i in ids:
             sel += per_scn.get(i, [])
+        # the harness lets the agent report TASK_RUNNING (rosterSeen) just before it records the roster.appended line
+        # itself: when the two lines are adjacent in the wrong order, both were written after the append
+        for i in range(len(sel) - 1):
+            a, b = sel[i], sel[i + 1]
+            if a.get("ev") == "MUpdate" and a.get("state") == "TASK_RUNNING" and b.get("ev") == "Hook" \
+                    and b.get("point") == "task.roster.appended" and b.get("task") == a.get("task") and a.get("scn") == b.get("scn"):
+                sel[i], sel[i + 1] = b, a
         pj = Projector(by_id)
         tf = cs.write_trace(ctx, sel, name="trace_%s_%s.ndjson" % (label, "reuse" if reuse else "plain"), keep=pj)
         viol, drift, tr = ctx.validate("LifecycleTrace", None, tf, cfg_text=cfg_trace(ctx, reuse), timeout=1500)
         for d in drift:
             ctx.drift.append({"scn": d[1], "line": d[2], "at": d[3], "hist": by_id.get(d[1], {}).get("hist")})
+        for a in tr.records("ASSUME"):
+            # an assumption about the harness did not hold in this scenario (load): not followed further, monitors only
+            ctx.extra["assume_broken"] = ctx.extra.get("assume_broken", 0) + 1
+            ctx.observations.append("scenario %s not followed after line %s: %s (harness timing, not the code)" % (a[1], a[2], a[3]))
         seen = set()
         for v in viol:
             inv, scn = v[1], v[2]
@@ -671,7 +756,7 @@ def cause_of(inv, s, detail, facts):
                 else:
                     causes.add("other")
             elif inv == "PostKilled":
-                causes.add("selected-inactive" if f.get("inactive") else "other")
+                causes.add("kill-refused" if t in facts.get("refused", ()) else ("selected-inactive" if f.get("inactive") else "other"))
             else:
                 causes.add("never-in-roster" if not f.get("rostered") else ("selected-inactive" if f.get("inactive") else "other"))
         return "+".join(sorted(causes)) or "other"
